@@ -232,32 +232,35 @@ pub fn diagnostics(text: &str) -> Result<Vec<String>, String> {
 pub fn check_planted(p: &Planted) -> Result<bool, Failure> {
     let input = format!("{:?} with the fault at bytes {}..{} ({:?})", p.text, p.start, p.end, &p.text[p.start..p.end]);
     let diags = diagnostics(&p.text).map_err(|e| Failure::new(format!("panic: {e}"), input.clone()).with_sig("panic"))?;
-    let want_head = format!("[Error] {}", p.head);
-    let Some(d) = diags.iter().find(|d| d.lines().next() == Some(want_head.as_str())) else {
-        return Err(Failure::new(
-            format!("no diagnostic `{}`; got {:?}", p.head, diags.iter().map(|d| d.lines().next().unwrap_or("").to_owned()).collect::<Vec<_>>()),
-            input,
-        ));
-    };
-    let Some((_, listing_text)) = d.split_once("\n\n") else {
-        return Err(Failure::new(format!("diagnostic `{}` carries no source excerpt", p.head), input));
-    };
+    // Some diagnostic must carry an excerpt that shows exactly the planted span (the wording of the
+    // message is not part of the property; it is only used to explain a failure).
     let fault_text = &p.text[p.start..p.end];
-    let inner_ok = fault_text.starts_with('(')
-        && fault_text.ends_with(')')
-        && listing::compare(listing_text, &p.text, p.start + 1, p.end - 1).is_ok();
-    // ... or widened to parentheses that enclose nothing but the offending expression.
-    let widened_ok = {
+    let spans: Vec<(usize, usize)> = {
+        let mut v = vec![(p.start, p.end)];
+        // The expression with or without parentheses that enclose nothing but it.
+        if fault_text.starts_with('(') && fault_text.ends_with(')') && p.end - p.start > 2 {
+            v.push((p.start + 1, p.end - 1));
+        }
         let before = p.text[..p.start].trim_end();
         let after = p.text[p.end..].trim_start();
-        before.ends_with('(')
-            && after.starts_with(')')
-            && listing::compare(listing_text, &p.text, before.len() - 1, p.text.len() - after.len() + 1).is_ok()
+        if before.ends_with('(') && after.starts_with(')') {
+            v.push((before.len() - 1, p.text.len() - after.len() + 1));
+        }
+        v
     };
-    if inner_ok || widened_ok {
-        // The span may be the expression with or without the parentheses that enclose only it.
-    } else if let Err(why) = listing::compare(listing_text, &p.text, p.start, p.end) {
-        let mut f = Failure::new(format!("`{}`: {why}\n{listing_text}", p.head), input);
+    let points_at_fault = |d: &String| {
+        d.split_once("\n\n").is_some_and(|(_, listing_text)| spans.iter().any(|(s, e)| listing::compare(listing_text, &p.text, *s, *e).is_ok()))
+    };
+    if !diags.iter().any(points_at_fault) {
+        let want_head = format!("[Error] {}", p.head);
+        let detail = match diags.iter().find(|d| d.lines().next() == Some(want_head.as_str())) {
+            Some(d) => match d.split_once("\n\n") {
+                Some((_, listing_text)) => format!("`{}`: {}\n{listing_text}", p.head, listing::compare(listing_text, &p.text, p.start, p.end).err().unwrap_or_default()),
+                None => format!("the diagnostic `{}` carries no source excerpt", p.head),
+            },
+            None => format!("no diagnostic points at the fault; diagnostics: {:?}", diags.iter().map(|d| d.lines().next().unwrap_or("").to_owned()).collect::<Vec<_>>()),
+        };
+        let mut f = Failure::new(detail, input);
         // Signatures of the two recorded (and since repaired) defects, for attribution only.
         if p.binder_form == "{x} => e" {
             f = f.with_sig("implicit-lambda-binder-range");
